@@ -637,7 +637,18 @@ func (i *IRCServer) GetSessions() map[robust.Id]Session {
 	defer i.sessionsMu.RUnlock()
 	result := make(map[robust.Id]Session, len(i.sessions))
 	for id, session := range i.sessions {
-		result[id] = *session
+		// The maps need to be copied as well, they keep being modified
+		// after we release the lock.
+		c := *session
+		c.Channels = make(map[lcChan]bool, len(session.Channels))
+		for channel, member := range session.Channels {
+			c.Channels[channel] = member
+		}
+		c.invitedTo = make(map[lcChan]bool, len(session.invitedTo))
+		for channel, invited := range session.invitedTo {
+			c.invitedTo[channel] = invited
+		}
+		result[id] = c
 	}
 	return result
 }
